@@ -94,6 +94,8 @@ def run_job(job):
                 out.setdefault("notes", []).append("record skipped: a node kind is not part of the supergraph")
             if rf is not None:
                 gs_in = G.init_record(gs0, **rf)
+            hist = [f"rollout:{min(int(c.split(':')[1]), G.max_steps - int(onp.asarray(gs0.step)))}" if c.startswith("rollout:") else c for c in run["history"]]
+            hist = [c for c in hist if c != "rollout:0"] or ["reset"]
             probes.LOG.clear()
             rn = runner[bool(run.get("jit", True))]
             if rf is not None:
@@ -101,7 +103,7 @@ def run_job(job):
                 # record in the same process makes jax's cache lookup compare arrays with == and raise. Start from empty caches.
                 jax.clear_caches()
                 rn = compiled.CompiledRunner(G, nodes, cfg, jit=bool(run.get("jit", True)))
-            gs_f = rn.exec_history(gs_in, run["history"])
+            gs_f = rn.exec_history(gs_in, hist)
             log = compiled.arun.project_log(probes.LOG.snapshot())
             rec = None
             if rf is not None:
@@ -113,8 +115,140 @@ def run_job(job):
                 ref = {n["name"]: [] for n in cfg["nodes"]}
                 for le in compiled.log_for_run(ar["log"], cfg, rngidx):
                     ref[le["kind"]].append(le)
-            t = compiled.project_run(st, cfg, gs0, run["history"], log, gs_f, rngidx, f"{tagm}/r{ri}", rec=rec, ref=ref)
+            t = compiled.project_run(st, cfg, gs0, hist, log, gs_f, rngidx, f"{tagm}/r{ri}", rec=rec, ref=ref)
             out["runs"].append(t)
+            out.setdefault("digests", []).append(_digest(gs_f.replace(aux=gs0.aux)))
             out["meta"].append(dict(mode=mode, prune=prune, history=run["history"], jit=bool(run.get("jit", True)), nlog=len(log), eps=e_eff,
                                     step0=int(onp.asarray(gs0.step)), P=st["H"]))
+    return out
+
+
+def _digest(gs):
+    import hashlib
+
+    h = hashlib.sha1()
+    leaves, treedef = jax.tree_util.tree_flatten(gs)
+    h.update(str(treedef).encode())
+    for x in leaves:
+        a = onp.asarray(x)
+        h.update(str(a.dtype).encode() + str(a.shape).encode() + a.tobytes())
+    return h.hexdigest()
+
+
+def api_job(job):
+    """C09: replay call histories (from RexApi) on one real Graph, jitted and eagerly; RexRun traces + state digests;
+    init() clipping and params override; vmapped batches against un-batched runs."""
+    from . import probes, trace
+    from .probes import ProbeParams
+    import jax.numpy as jnp
+
+    cfg = job["cfg"]
+    g_raw, eps_async, h_async = _graphs_for(job)
+    n_eps = next(iter(g_raw.vertices.values())).seq.shape[0]
+    mode, prune = job.get("mode", "mcs"), job.get("prune", True)
+    nodes = gen.build_nodes(cfg, log=True)
+    G = Graph(nodes=dict(nodes), supervisor=nodes[cfg["sup"]], graphs_raw=g_raw, supergraph=compiled.MODES[mode], prune=prune, progress_bar=False)
+    P = G.max_steps + 1
+    out = dict(static=[], runs=[], digests=[], checks=[], P=P, n_eps=n_eps)
+    rj = compiled.CompiledRunner(G, nodes, cfg, jit=True)
+    re = compiled.CompiledRunner(G, nodes, cfg, jit=False)
+    statics = {}
+
+    def static_for(gs0):
+        e = int(onp.asarray(gs0.eps))
+        if e not in statics:
+            statics[e] = compiled.project_static(G, cfg, e, compiled.buffer_sizes_of(gs0), f"{job.get('id')}/e{e}", prune)
+            out["static"].append(statics[e])
+        return statics[e]
+
+    # 1. init(): clipping of starting indices, params override
+    pover = {cfg["nodes"][0]["name"]: ProbeParams(p=jnp.int32(77))}
+    for (ea, sa) in job.get("inits", []):
+        gs0 = G.init(jax.random.PRNGKey(job.get("seed", 0)), params=pover, starting_eps=ea, starting_step=sa)
+        exp_e = min(max(ea, 0), n_eps - 1)
+        exp_s = min(max(sa, 0), P - 1)
+        got_e, got_s = int(onp.asarray(gs0.eps)), int(onp.asarray(gs0.step))
+        got_p = int(onp.asarray(gs0.params[cfg["nodes"][0]["name"]].p))
+        out["checks"].append(dict(kind="init_clip", args=[ea, sa], expected=[exp_e, exp_s, 77], got=[got_e, got_s, got_p],
+                                  ok=(got_e == exp_e and got_s == exp_s and got_p == 77)))
+        if exp_s < P - 1:
+            st = static_for(gs0)
+            probes.LOG.clear()
+            gs_f = rj.exec_history(gs0, ["run"])
+            log = compiled.arun.project_log(probes.LOG.snapshot())
+            t = compiled.project_run(st, cfg, gs0, ["run"], log, gs_f, _rng_index(gs0, cfg), f"{job.get('id')}/init{ea}_{sa}")
+            out["runs"].append(t)
+    # 2. call histories
+    for hi, (hist, nf, s0) in enumerate(job["api_histories"]):
+        gs0 = G.init(jax.random.PRNGKey(job.get("seed", 0)), starting_eps=job.get("eps", 0), starting_step=s0)
+        st = static_for(gs0)
+        rngidx = _rng_index(gs0, cfg)
+        for jit in ([True, False] if hi % job.get("eager_every", 5) == 0 else [True]):
+            probes.LOG.clear()
+            gs_f = (rj if jit else re).exec_history(gs0, hist)
+            log = compiled.arun.project_log(probes.LOG.snapshot())
+            t = compiled.project_run(st, cfg, gs0, hist, log, gs_f, rngidx, f"{job.get('id')}/h{hi}{'j' if jit else 'e'}")
+            out["runs"].append(t)
+            out["digests"].append(dict(hist=hist, nf=nf, s0=s0, jit=jit, digest=_digest(gs_f)))
+    # 3. vmapped batches against un-batched runs (no host logging under vmap)
+    nq = gen.build_nodes(cfg, log=False)
+    Gq = Graph(nodes=dict(nq), supervisor=nq[cfg["sup"]], graphs_raw=g_raw, supergraph=compiled.MODES[mode], prune=prune, progress_bar=False)
+    B = job.get("batch", 3)
+    keys = jax.random.split(jax.random.PRNGKey(job.get("seed", 0) + 99), B)
+    n = min(3, Gq.max_steps)
+    gsb = jax.vmap(lambda k: Gq.init(k, starting_eps=0))(keys)
+    fb = jax.jit(jax.vmap(lambda g: Gq.rollout(g, max_steps=n)))(gsb)
+    f1 = jax.jit(lambda g: Gq.rollout(g, max_steps=n))
+    frun = jax.jit(jax.vmap(Gq.run))
+    gr = gsb
+    for _ in range(n):
+        gr = frun(gr)
+    for b in range(B):
+        single = f1(Gq.init(keys[b], starting_eps=0))
+        pick = jax.tree_util.tree_map(lambda x: x[b], fb)
+        pick2 = jax.tree_util.tree_map(lambda x: x[b], gr)
+        out["checks"].append(dict(kind="vmap_rollout_vs_single", b=b, ok=(_digest(pick) == _digest(single))))
+        out["checks"].append(dict(kind="vmap_run_n_vs_single_rollout", b=b, ok=(_digest(pick2) == _digest(single))))
+    # carry-only vs full trajectory rollout
+    g1 = Gq.init(keys[0], starting_eps=0)
+    full = jax.jit(lambda g: Gq.rollout(g, max_steps=n, carry_only=False))(g1)
+    last = jax.tree_util.tree_map(lambda x: x[-1], full)
+    out["checks"].append(dict(kind="rollout_full_last_vs_carry", ok=(_digest(last) == _digest(f1(g1)))))
+    return out
+
+
+def buffer_job(job):
+    """C08: user-supplied buffer_sizes. Every size from the minimum to minimum+2 must execute correctly; a size below the minimum must be refused."""
+    from . import probes
+
+    cfg = job["cfg"]
+    g_raw, eps_async, h_async = _graphs_for(job)
+    out = dict(static=[], runs=[], checks=[])
+    nodes = gen.build_nodes(cfg, log=True)
+    G0 = Graph(nodes=dict(nodes), supervisor=nodes[cfg["sup"]], graphs_raw=g_raw, progress_bar=False)
+    mins = {k: int(max(v) if len(v) > 0 else 1) for k, v in G0.timings.get_buffer_sizes().items()}
+    big = [k for k, v in mins.items() if v > 1]
+    variants = [({k: v + d for k, v in mins.items()}, True) for d in (0, 1, 2)]
+    if big:
+        variants.append(({big[0]: mins[big[0]] - 1}, False))
+    for vi, (sizes, admissible) in enumerate(variants):
+        nodes = gen.build_nodes(cfg, log=True)
+        try:
+            G = Graph(nodes=dict(nodes), supervisor=nodes[cfg["sup"]], graphs_raw=g_raw, progress_bar=False, buffer_sizes=dict(sizes))
+            built = True
+        except AssertionError:
+            built = False
+        out["checks"].append(dict(kind="buffer_sizes_admissibility", sizes=sizes, minimum=mins, admissible=admissible, accepted=built, ok=(built == admissible)))
+        if not built or not admissible:
+            continue
+        gs0 = G.init(jax.random.PRNGKey(job.get("seed", 0)))
+        got = compiled.buffer_sizes_of(gs0)
+        out["checks"].append(dict(kind="buffer_sizes_used", sizes=sizes, got=got, ok=all(got.get(k) == v for k, v in sizes.items() if k in got)))
+        st = compiled.project_static(G, cfg, 0, got, f"{job.get('id')}/buf{vi}/e0", True)
+        out["static"].append(st)
+        probes.LOG.clear()
+        hist = [f"rollout:{G.max_steps}"]
+        gs_f = compiled.CompiledRunner(G, nodes, cfg, jit=True).exec_history(gs0, hist)
+        log = compiled.arun.project_log(probes.LOG.snapshot())
+        out["runs"].append(compiled.project_run(st, cfg, gs0, hist, log, gs_f, _rng_index(gs0, cfg), f"{job.get('id')}/buf{vi}"))
     return out
